@@ -177,7 +177,8 @@ def run_case(case):
                         opt = {"pe": rng.choice(c03.ENG), "bt": rng.random() < 0.7, "tr": rng.random() < 0.4, "rq": rng.random() < 0.2}
                         prog = prog[:-1] + [opt]
                     if op == "mat":
-                        prog = ["mat", prog[1], f"M{step}"]
+                        # explicit names, some of them long (descriptive names assembled from several parts)
+                        prog = ["mat", prog[1], f"M{step}" if rng.random() < 0.7 else f"M{step}_" + "deep_coadd_forced_source_table_" * rng.randint(2, 4)]
                     what = model.show(prog)
                     if ent.get("processed"):
                         # build on the processed OBJECT (the program alone would rebuild an unprocessed tree)
